@@ -71,7 +71,22 @@ static void op_ep_param(int argc, char **argv) {
 	if (ep_curve_is_endom()) {
 		fprintf(OUT, " beta="); fp_print_std(ep_curve_get_beta());
 	}
-	fprintf(OUT, " embed=%d level=%d\n", ep_curve_embed(), ep_param_level());
+	fprintf(OUT, " embed=%d level=%d", ep_curve_embed(), ep_param_level());
+	/* field-level derived state that must follow the selection: sparse form of the modulus, family parameter and its sparse form */
+	{
+		int len = 0; const int *sp = fp_prime_get_sps(&len);
+		bn_t x; bn_null(x); bn_new(x);
+		fprintf(OUT, " sps=");
+		if (sp == NULL || len == 0) fputc('.', OUT);
+		for (int i = 0; sp != NULL && i < len; i++) fprintf(OUT, "%s%d", i ? "," : "", sp[i]);
+		fp_prime_get_par(x);
+		fprintf(OUT, " par=%s", bn_sign(x) == RLC_NEG ? "-" : ""); raw_print(x->dp, x->used, 0);
+		len = 0; sp = fp_prime_get_par_sps(&len);
+		fprintf(OUT, " parsps=");
+		if (sp == NULL || len == 0) fputc('.', OUT);
+		for (int i = 0; sp != NULL && i < len; i++) fprintf(OUT, "%s%d", i ? "," : "", sp[i]);
+	}
+	fputc('\n', OUT);
 }
 
 /* ep2 <op> <alias> <P> <Q> */
